@@ -207,7 +207,10 @@ CLAIMED = {
              "(length = |content| <= limit), stored content = old content ++ accepted part of each write, independence of "
              "the stored bytes from the in-memory limit (memory vs. disk), ProcessPartial stores exactly take(limit) of the "
              "supplied bytes, Reject refuses all-or-nothing exactly when the cumulative size reaches the limit, the body "
-             "phase runs at most once, readers return exactly the content; tied to /repo by the `body` correspondence.",
+             "phase runs at most once, readers return exactly the content; and a refinement theorem (C10_refines, Properties/C10b.lean): after "
+             "any writes the model's state abstracts to the state of the specification machine of Spec/Body.lean (stored bytes only) and every "
+             "write returned the same (interruption, count, error) — hence nothing observable depends on the in-memory limit "
+             "(C10_memlimit_invisible); tied to /repo by the `body` correspondence.",
         note=_TB + "File operations are infallible in this model (faults are C20); io.CopyN and bytes.Buffer are assumed.",
         ref="6/C10", engine="body"),
     "C14": dict(
